@@ -8,30 +8,7 @@ import time
 def engine_c20(chk, prop, tier, seed, meta):
     """Build the Python extension from /repo, generate encoder-written files, and run the
     exhaustive values() enumeration in partitioned python3-vt workers."""
-    t0 = time.time()
-    target = os.path.join(chk.CACHE, "target-py")
-    env = dict(chk.ENV)
-    env.update({
-        "CARGO_TARGET_DIR": target,
-        "PYO3_PYTHON": "python3-vt",
-        "RUSTFLAGS": "--cfg bigtools_verif",
-        "CARGO_PROFILE_RELEASE_LTO": "false",
-        "CARGO_PROFILE_RELEASE_CODEGEN_UNITS": "16",
-        "CARGO_PROFILE_RELEASE_OPT_LEVEL": "2",
-    })
-    p = subprocess.run(["cargo", "build", "--release", "--offline", "-p", "pybigtools"], cwd="/repo", env=env,
-                       stdout=subprocess.PIPE, stderr=subprocess.STDOUT, text=True)
-    if p.returncode != 0:
-        import sys
-        sys.stderr.write(p.stdout[-6000:])
-        chk.machinery("building the pybigtools extension failed")
-    moddir = os.path.join(chk.CACHE, "pymod")
-    os.makedirs(moddir, exist_ok=True)
-    link = os.path.join(moddir, "pybigtools.so")
-    if os.path.islink(link) or os.path.exists(link):
-        os.unlink(link)
-    os.symlink(os.path.join(target, "release", "libpybigtools.so"), link)
-    chk.log(f"[check] pybigtools build ok in {time.time()-t0:.1f}s")
+    moddir = chk.build_py()
     gendir = os.path.join(chk.TMP, f"c20.{os.getpid()}")
     g = subprocess.run([chk.VH, "gen-c20", gendir, tier], env=chk.ENV, stdout=subprocess.PIPE, text=True)
     if g.returncode != 0 or "GENERATED" not in g.stdout:
